@@ -4,7 +4,7 @@
    then, from the grammar alone, each malformation of the property's list is excluded.
    Property theorems only; proofs in proofs/GrammarProof.v (and ParserProof.parse_wf). *)
 From DTR Require Import Prelude I64 Ast FramedMap Lexer Parser Grammar.
-From DTR.proofs Require Import RadixProof LexerProof ParserProof GrammarProof.
+From DTR.proofs Require Import RadixProof LexerProof ParserProof GrammarProof ExprRoundTrip GrammarComplete.
 Local Open Scope nat_scope.
 
 (* every accepted text is derivable in the grammar of Grammar.v (the only place where "well-formed" is defined): for EVERY string *)
@@ -97,6 +97,79 @@ Theorem C12_header_followed_by_newline :
   forall (s : text) (h : header), parse_header s = Ok h -> exists u : list N, s = u ++ 10%N :: h_rest h.
 Proof. exact C12_header_followed_by_newline. Qed.
 
+(* COMPLETENESS (the converse of C12_accepted_implies_grammatical): a text whose body is a program of the grammar and whose declared names are distinct IS accepted - the grammar of Grammar.v is not stricter than the parser *)
+Theorem C12_grammatical_implies_accepted :
+  forall (s : text) (h : header) (ts : list token),
+  parse_header s = Ok h ->
+  lex_body (h_pos h) (h_rest h) = Some ts ->
+  G_program (length (h_names h)) (view ts) ->
+  NoDup (declared_names (view ts)) -> exists p : parsed, parse s = Ok p.
+Proof. exact grammatical_text_accepted. Qed.
+
+(* so the accepted texts are EXACTLY the grammatical ones with distinct declared names ... *)
+Theorem C12_accepted_iff_grammatical :
+  forall (s : text) (h : header) (ts : list token),
+  parse_header s = Ok h ->
+  lex_body (h_pos h) (h_rest h) = Some ts ->
+  (exists p : parsed, parse s = Ok p) <->
+  G_program (length (h_names h)) (view ts) /\ NoDup (declared_names (view ts)).
+Proof. exact accepted_iff_grammatical. Qed.
+
+(* ... for every string *)
+Theorem C12_accepted_language :
+  forall s : text,
+  (exists p : parsed, parse s = Ok p) <->
+  (exists (h : header) (ts : list token),
+  parse_header s = Ok h /\
+  lex_body (h_pos h) (h_rest h) = Some ts /\
+  G_program (length (h_names h)) (view ts) /\ NoDup (declared_names (view ts))).
+Proof. exact accepted_language. Qed.
+
+(* a grammatical text is rejected only for a repeated declare, and then with that error *)
+Theorem C12_grammatical_text_rejected_only_for_a_repeated_declare :
+  forall (s : text) (h : header) (ts : list token),
+  parse_header s = Ok h ->
+  lex_body (h_pos h) (h_rest h) = Some ts ->
+  G_program (length (h_names h)) (view ts) ->
+  ~ NoDup (declared_names (view ts)) ->
+  exists (e : perr) (n : name), parse s = Err e /\ pe_kind e = PE_DuplicateVirtualSignal n.
+Proof. exact grammatical_text_rejected. Qed.
+
+(* token level, any starting state: header width, distinct declared names (with those already declared) and enough fuel are the only side conditions *)
+Theorem C12_grammatical_implies_accepted_tokens :
+  forall (w : nat) (ts : list token) (input_len : N) (hdr : list name) (st : pstate) 
+  (fuel : nat) (block : list stmt),
+  G_program w (view ts) ->
+  length hdr = w ->
+  toks st = ts ->
+  NoDup (map fst (pvirtuals st) ++ declared_names (view ts)) ->
+  (2 + 4 * length ts <= fuel)%nat ->
+  exists result : list stmt * pstate, parse_block_loop input_len hdr fuel None block st = Ok result.
+Proof. exact grammatical_implies_accepted. Qed.
+
+(* the side condition is necessary (closed example) *)
+Theorem C12_repeated_declare_is_grammatical_but_rejected :
+  exists (h : header) (ts : list token),
+  parse_header ex_dup = Ok h /\
+  lex_body (h_pos h) (h_rest h) = Some ts /\
+  G_program (length (h_names h)) (view ts) /\
+  declared_names (view ts) =
+  [s2n (String.String (Ascii.Ascii false false false true true true true false) String.EmptyString);
+  s2n (String.String (Ascii.Ascii false false false true true true true false) String.EmptyString)] /\
+  (exists e : perr,
+  parse ex_dup = Err e /\
+  pe_kind e =
+  PE_DuplicateVirtualSignal
+  (s2n
+  (String.String (Ascii.Ascii false false false true true true true false) String.EmptyString))).
+Proof. exact duplicate_declare_grammatical_but_rejected. Qed.
+
+(* every grammatical expression token list is a printing of some expression tree (so the round trip of C08 applies to it) *)
+Theorem C12_every_grammatical_expression_is_a_printing :
+  forall ts : list tok, G_expr ts -> exists e : expr, Prints e ts.
+Proof. exact G_expr_Prints. Qed.
+
+
 Check C12_accepted_implies_grammatical.
 (* non-vacuity: the block checker on concrete keyword sequences *)
 Example C12_example : blocks_ok [TLoop; TWhile; TEnd; TWhile; TEnd; TLoop; TEof] = true /\
@@ -106,3 +179,7 @@ Proof. repeat split. Qed.
 Print Assumptions C12_accepted_implies_grammatical.
 Print Assumptions C12_truncated_text_rejected.
 Print Assumptions C12_blocks_matched.
+Print Assumptions C12_grammatical_implies_accepted.
+Print Assumptions C12_accepted_iff_grammatical.
+Print Assumptions C12_accepted_language.
+Print Assumptions C12_grammatical_text_rejected_only_for_a_repeated_declare.
